@@ -13,5 +13,5 @@ for id in $IDS; do
   echo "$id: $out"
   [ -f /verif/.cache/evidence-$id.saved ] && mv /verif/.cache/evidence-$id.saved /verif/evidence/$id.json
 done
-git -C /repo checkout -- .
+git -C /repo checkout -- . && git -C /repo clean -fdq -- include
 python3 /verif/tools/regen.py >/dev/null 2>&1
